@@ -141,3 +141,25 @@ package resource
 //@   ensures [rest-kept] res.Id == old(recv.Id) && res.ChangeType == old(recv.ChangeType) && res.ChangeTime == old(recv.ChangeTime) && res.SeedValue == old(recv.SeedValue) && res.LastSeedValue == old(recv.LastSeedValue)
 //@   ensures [event-untouched] recv.NewValue == old(recv.NewValue) && recv.OldValue == old(recv.OldValue) && msgval(recv.NewValue) == old(msgval(recv.NewValue)) && msgval(recv.OldValue) == old(msgval(recv.OldValue))
 //@   modifies nothing
+//@
+//@ // ---- the goroutine that forwards a Value's events to one subscriber (C04, C06, C16 suppression step, C10 close) ----
+//@ // The bus of a Value only ever carries *ValueChange (see set#post.event-value); the seed comes from onUpdate.
+//@ func (*Value).Pull$1()
+//@   requires wfValue(r) && filter != nil && typedEvents != nil && !isnil(ctx)
+//@   requires chanSent(typedEvents) == 0 && !chanClosed(typedEvents)
+//@   requires forall k int :: istype(chanSeq(on, k), *ValueChange) && cast(chanSeq(on, k), *ValueChange) != nil && !cast(chanSeq(on, k), *ValueChange).SeedValue && allocated(cast(chanSeq(on, k), *ValueChange))
+//@   requires [masks-valid] filter.fields == nil     // a read mask is validated by whoever accepts it from a request (C06 finding otherwise)
+//@   // seed: at most one, only when there is a current value, flagged seed and last-seed, with the stored change time
+//@   onsend typedEvents [seed]: sent != nil && (sent.SeedValue ==> !isnil(currentValue) && sent.LastSeedValue && sent.ChangeTime == changeTime && projected(sent.Value, currentValue, filter) && chanSent(typedEvents) == 0)
+//@   // updates: exactly the received event, projected; never equivalent to what the subscriber already holds
+//@   onsend typedEvents [update]: !sent.SeedValue ==> projected(sent.Value, cast(event, *ValueChange).Value, filter) && sent.ChangeTime == cast(event, *ValueChange).ChangeTime && sent.LastSeedValue == cast(event, *ValueChange).LastSeedValue
+//@   onsend typedEvents [not-equivalent]: !sent.SeedValue && !isnil(r.config.equivalence) ==> !r.config.equivalence.Compare(last, sent.Value)
+//@   modifies nothing
+//@   ensures [closed] chanClosed(typedEvents)
+//@   ensures [no-seed-without-value] isnil(currentValue) ==> forall k int :: 0 <= k && k < chanSent(typedEvents) ==> !chanSentAt(typedEvents, k).SeedValue
+//@   loop 0:
+//@     invariant !chanClosed(typedEvents) && chanSent(typedEvents) >= 0
+//@     // what the subscriber holds: the seed if nothing was delivered since, else the value delivered last
+//@     invariant chanSent(typedEvents) == 0 ==> last == currentValue
+//@     invariant chanSent(typedEvents) > 0 ==> chanSentAt(typedEvents, chanSent(typedEvents) - 1) != nil && (last == chanSentAt(typedEvents, chanSent(typedEvents) - 1).Value || (chanSent(typedEvents) == 1 && chanSentAt(typedEvents, 0).SeedValue && last == currentValue))
+//@     invariant isnil(currentValue) ==> forall k int :: 0 <= k && k < chanSent(typedEvents) ==> !chanSentAt(typedEvents, k).SeedValue
